@@ -265,7 +265,13 @@ func VerifC17Revocation() {
 func VerifC09Sealed() {
 	vForbidPanic("C09")
 	N := vParam("blocks")
-	w := chainBuild(N, nil)
+	hasID := vChoose("has-id", 2) == 1
+	id := vUint32("id")
+	var idp *uint32
+	if hasID {
+		idp = &id
+	}
+	w := chainBuild(N, idp)
 	j := vChoose("prefix", N+1)
 	t := w.tokens[j]
 	s, err := t.Seal(w.rng)
@@ -273,12 +279,22 @@ func VerifC09Sealed() {
 	if err != nil {
 		return
 	}
+	vAssert(c16SameID(s.RootKeyID(), hasID, id), "C09.same-root-key-id")
 	if vChoose("reloaded", 2) == 1 {
 		s = c16Reload(s)
 		vLabel("reloaded")
 	}
 	_, verr := s.AuthorizerFor(WithSingularRootPublicKey(w.rootPub))
 	vAssert(verr == nil, "C09.sealed-verifies")
+	// ... and under the same key selection by identifier as its source
+	sel := WithRootPublicKeys(map[uint32]ed25519.PublicKey{id: w.rootPub}, nil)
+	if !hasID {
+		sel = WithRootPublicKeys(map[uint32]ed25519.PublicKey{}, &w.rootPub)
+	}
+	_, e1 := t.AuthorizerFor(sel)
+	_, e2 := s.AuthorizerFor(sel)
+	vAssert(e1 == nil, "C09.source-verifies-by-id")
+	vAssert(e2 == nil, "C09.sealed-verifies-by-id")
 	ids, sids := t.RevocationIds(), s.RevocationIds()
 	vAssert(len(ids) == len(sids), "C09.same-ids")
 	for i := range ids {
@@ -287,6 +303,22 @@ func VerifC09Sealed() {
 		}
 	}
 	vAssert(s.BlockCount() == t.BlockCount(), "C09.same-blockcount")
+	// same Datalog content, block for block, and same context
+	tf, ok1 := c08Facts(t)
+	sf, ok2 := c08Facts(s)
+	vAssert(ok1 && ok2 && len(tf) == len(sf), "C09.same-content")
+	if ok1 && ok2 && len(tf) == len(sf) {
+		for i := range tf {
+			vAssert(len(tf[i]) == len(sf[i]), "C09.same-content")
+			for k := range tf[i] {
+				if k < len(sf[i]) {
+					vAssert(gFactEq(tf[i][k], sf[i][k]), "C09.same-content")
+				}
+			}
+		}
+	}
+	vAssert(s.GetContext() == t.GetContext(), "C09.same-context")
+	vAssert(len(s.Checks()) == len(t.Checks()), "C09.same-checks")
 	// frozen
 	bb := t.CreateBlock()
 	bb.AddFact(Fact{Predicate{Name: "more", IDs: []Term{Integer(1)}}})
